@@ -44,6 +44,15 @@ theorem C03_exactly_once_at_done (cfg : Cfg) (hnd : cfg.nodes.Nodup) {tr s} (hr 
 theorem C04_inflight_le_maxc (cfg : Cfg) (hm : 0 < cfg.maxc) {tr s} (hr : Run cfg tr s) :
     s.conc.length + s.asyn.length ≤ cfg.maxc := TM.C04_inflight_le_maxc cfg hm hr
 
+/-- C04 (resources decide the thread): every start recorded in a run happened where the node's resource
+    says — `thread`: submitted to the pool; `async`: pool submission wrapped as an asyncio future; `main`:
+    inline on the invoking thread, never in flight. -/
+theorem C04_resource_decides (cfg : Cfg) {tr s} (hr : Run cfg tr s) :
+    ∀ l ∈ tr, ∀ n r, l.place = some (n, r) → cfg.res n = r := TM.C04_resource_decides cfg hr
+
+theorem C04_in_flight_sets_match_resource (cfg : Cfg) {tr s} (hr : Run cfg tr s) :
+    (∀ x ∈ s.conc, cfg.res x = .thread) ∧ (∀ x ∈ s.asyn, cfg.res x = .async) := TM.C04_placed cfg hr
+
 /-- C05: a node starts only while no sequential node is in flight; a sequential node only when nothing is. -/
 theorem C05_sequential_exclusive (cfg : Cfg) {tr s l s'} (hr : Run cfg tr s) (hs : Step cfg s l s')
     {n} (hl : l.start = some n) :
@@ -169,6 +178,32 @@ theorem C12_selection_is_closure (g : G) (hnd : g.nodes.Nodup) (ht : TopoL g.pre
       (inR g R x ∧ ¬ (x ∈ X ∨ ∃ q ∈ X, Reach g q x) ∧ (x ∈ T ∨ ∃ t ∈ T, Reach g x t)) :=
   GM.selectNodes_spec g hnd ht R X T hR hX hT x
 
+/-- C12 ("through any alias form"): a string that is some node's tag denotes exactly the nodes carrying
+    that tag — also when it is, in addition, the id of another node (tags win). -/
+theorem C12_alias_tag_wins (nm : Naming) (a : String) (i : GM.Node) (hi : i < nm.n) (ht : a ∈ nm.tagsOf i) :
+    resolveAlias nm (.name a) = some (nm.tagged a) ∧
+    ∀ x, x ∈ nm.tagged a ↔ (x < nm.n ∧ a ∈ nm.tagsOf x) := GM.resolve_tag_wins nm a i hi ht
+
+/-- C12: a string that is nobody's tag and is the (unique) id of node `i` denotes exactly `[i]`. -/
+theorem C12_alias_id (nm : Naming) (a : String) (i : GM.Node) (hi : i < nm.n) (hid : nm.idOf i = a)
+    (huniq : ∀ j, j < nm.n → nm.idOf j = a → j = i) (hnotag : ∀ j, j < nm.n → a ∉ nm.tagsOf j) :
+    resolveAlias nm (.name a) = some [i] := GM.resolve_id nm a i hi hid huniq hnotag
+
+/-- C12: a string that is neither a tag nor an id is refused (ValueError), and one refused alias refuses
+    the whole selection; otherwise a list of aliases denotes the union of its members. -/
+theorem C12_alias_unknown_refused (nm : Naming) (a : String) (hnotag : ∀ j, j < nm.n → a ∉ nm.tagsOf j)
+    (hnoid : ∀ j, j < nm.n → nm.idOf j ≠ a) : resolveAlias nm (.name a) = none := GM.resolve_unknown nm a hnotag hnoid
+
+theorem C12_alias_list_is_union (nm : Naming) (as : List Alias) (l : List GM.Node) (h : resolveAll nm as = some l) :
+    ∀ x, x ∈ l ↔ ∃ a ∈ as, ∃ la, resolveAlias nm a = some la ∧ x ∈ la := GM.resolveAll_spec nm as l h
+
+theorem C12_alias_list_refused_iff (nm : Naming) (as : List Alias) :
+    resolveAll nm as = none ↔ ∃ a ∈ as, resolveAlias nm a = none := GM.resolveAll_none_iff nm as
+
+-- non-vacuity: node 1 carries the tag "n0", which is also node 0's id: the string denotes node 1
+example : resolveAlias { n := 2, idOf := fun i => if i = 0 then "n0" else "n1", tagsOf := fun i => if i = 1 then ["n0"] else [] }
+    (.name "n0") = some [1] := by decide
+
 /-- C13 (flag off): no debug node survives, for every selection. -/
 theorem C13_flag_off_no_debug (g : G) (isDebug : GM.Node → Bool) (sel leaves : List GM.Node) (x : GM.Node)
     (hx : x ∈ extendDebug g isDebug sel leaves false) : isDebug x = false :=
@@ -266,6 +301,17 @@ example : FlagSafe VD.wSafe ∧ ¬ NoDagFlags VD.wSafe :=
       (by simp [VD.wSafe])
     simp [Stmt.noDagFlag] at this⟩
 
+/-- C09 for the DAGs the tracer builds: the hypotheses of `C09_bound` (duplicate-free, acyclic) hold for
+    every traced table, so every scheduler run on a traced DAG — adversarial activeness and failures,
+    any attributes, any `max_concurrency ≥ 1` — has at most `32·|nodes| + 12` steps. -/
+theorem C09_traced_dag_terminates {V : Type} [PyVal V] (interp : Interp V) (defs : List (Def V)) (hfs : FlagSafe defs)
+    (i : Nat) (args outs : List V) (hev : evalTopComps (withIdent interp) defs i args = .ok outs)
+    (st : BState V) (refs : List Ref) (htr : traceTopComps defs i args = .ok (st, refs))
+    (a : Attrs) (hm : 0 < a.maxc) (act fl : TM.Node → Bool) {tr : List Label} {s : St}
+    (hrun : Run (cfgWith (st.cfg (withIdent interp)) a act fl) tr s) :
+    tr.length ≤ 32 * st.nodes.length + 12 :=
+  VM.C09_traced_terminates interp defs hfs i args outs hev st refs htr a hm act fl hrun
+
 /-- C10: the activation flag is read through the whole reference (id and key path); a node whose flag is
     falsy yields None in the denotation, a node whose flag is truthy yields its function's value; and
     in every returning execution, whatever the schedule, the recorded result of a deactivated node is
@@ -299,6 +345,12 @@ theorem C03_distinct_call_sites {V : Type} [PyVal V] (interp : Interp V) (defs :
     (st : BState V) (refs : List Ref) (htr : traceTopComps defs i args = .ok (st, refs)) :
     st.nodes.Nodup := VM.C03_distinct_call_sites interp defs hnf i args outs hev st refs htr
 
+theorem C03_distinct_call_sites_flags {V : Type} [PyVal V] (interp : Interp V) (defs : List (Def V))
+    (hfs : FlagSafe defs) (i : Nat) (args outs : List V)
+    (hev : evalTopComps (withIdent interp) defs i args = .ok outs)
+    (st : BState V) (refs : List Ref) (htr : traceTopComps defs i args = .ok (st, refs)) :
+    st.nodes.Nodup := VM.C03_distinct_call_sites_flags interp defs hfs i args outs hev st refs htr
+
 /-- C13 (values): under the build-time rule (no production node refers to a debug node) leaving the
     debug nodes out changes no production value. -/
 theorem C13_debug_nodes_never_influence {V : Type} [PyVal V] (c : ECfg V) (isDebug : TM.Node → Bool)
@@ -317,6 +369,28 @@ theorem C11_setup_at_most_once {V : Type} [PyVal V] (ops : List (Op V)) (i : Ins
 /-- C11: a setup value, once recorded, is never replaced. -/
 theorem C11_first_value_kept {V : Type} [PyVal V] (i : Inst V) (op : Op V) (n : TM.Node) (v : V)
     (h : i.res n = some v) : (applyOp i op).res n = some v := VM.applyOp_res_keep i op n v h
+
+/-- C11: an operation enters only nodes of its own selection, and none whose result the instance already holds
+    ("a sub-graph execution or setup(target_nodes=…) runs only the setup nodes its selection needs"). -/
+theorem C11_runs_only_what_selection_needs {V : Type} [PyVal V] (i : Inst V) (op : Op V) :
+    ∀ n ∈ entered (opCfg i op), n ∈ op.sel ∧ (opCfg i op).init n = none :=
+  fun n hn => ⟨VM.entered_subset_sel i op n hn, VM.entered_not_precomputed i op n hn⟩
+
+/-- C11: every later execution of any history sees the value produced the first time. -/
+theorem C11_later_executions_see_first_value {V : Type} [PyVal V] (ops : List (Op V)) (i : Inst V) (n : TM.Node) (v : V)
+    (h : i.res n = some v) : (runHistory i ops).res n = some v := VM.runHistory_res_keep ops i n v h
+
+/-- C15: the next call depends only on its own arguments and on which setup results the instance holds:
+    two histories (any calls, executor runs, failing calls) from one instance that end with the same setup
+    results give the next operation the very same run configuration. -/
+theorem C15_next_call_depends_only_on_setup_state {V : Type} [PyVal V] (i : Inst V) (ops1 ops2 : List (Op V))
+    (h : ∀ n, i.dag.isSetup n = true → (runHistory i ops1).res n = (runHistory i ops2).res n) (op : Op V) :
+    opCfg (runHistory i ops1) op = opCfg (runHistory i ops2) op :=
+  VM.C15_next_call_depends_only_on_setup_state i ops1 ops2 h op
+
+/-- C15: a failed operation leaves the instance exactly as it was. -/
+theorem C15_failed_operation_is_a_noop {V : Type} [PyVal V] (i : Inst V) (op : Op V)
+    (h : succeeded (opCfg i op) = false) : applyOp i op = i := VM.applyOp_failed_noop i op h
 
 /-- C15: whatever the history (failing operations included), an instance only ever gains setup results. -/
 theorem C15_no_state_but_setup {V : Type} [PyVal V] (ops : List (Op V)) (i : Inst V) (n : TM.Node)
@@ -345,9 +419,26 @@ theorem C19_compose_correct {V : Type} [PyVal V] (c : ECfg V) (hwf : WF c) (ins 
     den (composeCfg c ins outs vals) o = den (withInputs c ins vals) o :=
   VM.C19_compose_correct c hwf ins outs vals o ho
 
+/-- C17 (a): AsyncDAG equals DAG.  Both flavours run the same scheduler over the same table; whatever
+    attributes, `max_concurrency` and completion orders the two executions had, if both return they hold
+    the same result on every node (same return value, same setup results recorded) and started exactly the
+    same nodes, each once. -/
+theorem C17a_flavours_agree {V : Type} [PyVal V] (c : ECfg V) (hwf : WF c) (a1 a2 : Attrs) {tr1 tr2 vs1 vs2}
+    (h1 : VRun c a1 tr1 vs1) (h2 : VRun c a2 tr2 vs2) (d1 : vs1.st.pc = .done) (d2 : vs2.st.pc = .done) :
+    (∀ n, vs1.ρ n = vs2.ρ n) ∧ (∀ n ∈ c.nodes, (starts tr1).count n = (starts tr2).count n) :=
+  VM.C17a_flavours_agree c hwf a1 a2 h1 h2 d1 d2
+
 /-- C17 (b): any interleaving of `k` executions (concurrent awaits in one loop), each on its private
     copy of the results: every one that returns computed the denotation of its own table/arguments. -/
 theorem C17b_concurrent_awaits_isolated {V : Type} [PyVal V] (es : Nat → Exec V) {tr σ} (h : PRun es tr σ) (i : Nat)
+    (hwf : WF (es i).c) (hd : (σ i).st.pc = .done) : ∀ n, (σ i).ρ n = den (es i).c n :=
+  VM.C17b_concurrent_awaits_isolated es h i hwf hd
+
+/-- C16 (first clause): several threads calling one DAG at the same time, each with its own arguments —
+    an execution works on a private copy of the results, so the statement is the one of C17 (b) with
+    threads instead of coroutines: under any interleaving (at the granularity of scheduler steps) every
+    call that returns has computed the denotation of ITS OWN table and arguments. -/
+theorem C16_concurrent_calls_isolated {V : Type} [PyVal V] (es : Nat → Exec V) {tr σ} (h : PRun es tr σ) (i : Nat)
     (hwf : WF (es i).c) (hd : (σ i).st.pc = .done) : ∀ n, (σ i).ρ n = den (es i).c n :=
   VM.C17b_concurrent_awaits_isolated es h i hwf hd
 
